@@ -5374,6 +5374,9 @@ func (t *Terminal) Loop() error {
 			case actBracketedPasteEnd:
 				if t.pasting != nil {
 					queryChanged = string(t.input) != string(*t.pasting)
+					// A search requested just before the paste may have been started on an
+					// intermediate state of the query: search again for what it has come to
+					changed = true
 					t.pasting = nil
 				}
 			case actTogglePreview, actShowPreview, actHidePreview:
